@@ -32,10 +32,11 @@ def path_exists(body, src, dst_pred, avoid=frozenset(), include_src=False):
     prev = {}
     seen = set()
     stack = []
+    ROOT = -1
     for s in start:
-        if s not in avoid:
+        if s not in avoid and s not in prev:
             stack.append(s)
-            prev[s] = None if include_src else src
+            prev[s] = None if include_src else ROOT
     while stack:
         b = stack.pop()
         if b in seen:
@@ -43,8 +44,12 @@ def path_exists(body, src, dst_pred, avoid=frozenset(), include_src=False):
         seen.add(b)
         if dst_pred(b):
             path = [b]
-            while prev.get(path[-1]) is not None:
+            guard = 0
+            while prev.get(path[-1]) is not None and prev[path[-1]] != ROOT and guard <= len(body.blocks) + 2:
                 path.append(prev[path[-1]])
+                guard += 1
+            if not include_src:
+                path.append(src)
             return list(reversed(path))
         for s in body.succ(b):
             if s not in seen and s not in avoid:
